@@ -36,7 +36,7 @@ TraceNext ==
                 x == Expected(old, e.cset, e.offset)
             IN /\ fs' = old
                /\ ctx' = [old |-> old, cset |-> e.cset, offset |-> e.offset, x |-> x, prefixes |-> e.prefixes]
-               /\ PrintT(<<"EXPECT", e.tid, x.outcome, x.why>>)
+               /\ PrintT(<<"EXPECT", e.tid, x.outcome, x.why, Cardinality({k \in DOMAIN x.place : x.place[k].kind = "skipped"})>>)
        [] e.ev = "sys" ->
             LET r == SysStep(fs, e) IN
             /\ fs' = r.s /\ UNCHANGED ctx
